@@ -140,7 +140,7 @@ def run(m: Model, r: Report, tier: str) -> None:
     helper = m.require_function(f"{HELPERS}.suggests_service_not_supported")
     helper_set = set()
     for n in ast.walk(helper.node):
-        if isinstance(n, ast.List):
+        if isinstance(n, (ast.List, ast.Tuple, ast.Set)):
             helper_set |= codes_in(m, helper, n)
     # what happens to a reply, evaluated over its kinds (the statements after the exchange are interpreted; no gallia code runs): not-supported ends the probing of
     # this service without a record, a length error tries the next payload length, everything else (positive, any other negative) is recorded and ends the probing
